@@ -100,7 +100,7 @@ type Fault struct {
 	Task  int    `json:"task,omitempty"`  // victim (delay)
 	N     int    `json:"n,omitempty"`     // steps (delay) / short-write bytes
 	Ms    int64  `json:"ms,omitempty"`    // latency / jump
-	Errno string `json:"errno,omitempty"` // EIO | ENOSPC | EACCES | EPERM | EEXIST
+	Errno string `json:"errno,omitempty"` // EIO | ENOSPC | EACCES | EPERM | EEXIST | ENOENT
 	Power *Power `json:"power,omitempty"` // power loss outcome after a kill (nil: process kill only)
 }
 
